@@ -79,11 +79,11 @@ Qed.
 (* leaf ranges: a w-bit unsigned / two's complement value is inside the leaf's abstract value *)
 Lemma leaf_uint_sound_lem w x : 0 <= w -> 0 <= x < 2 ^ w -> in_aval (leaf_aval KUInt (Some w)) x.
 Proof.
-  intros Hw Hx. unfold in_aval; cbn. repeat split; try lia. apply Z.divide_1_l.
+  intros Hw Hx. unfold in_aval, leaf_aval. destruct (w <? 1); cbn; repeat split; try lia; try exact I; apply Z.divide_1_l.
 Qed.
 Lemma leaf_int_sound_lem w x : 1 <= w -> - 2 ^ (w - 1) <= x < 2 ^ (w - 1) -> in_aval (leaf_aval KInt (Some w)) x.
 Proof.
-  intros Hw Hx. unfold in_aval; cbn. repeat split; try lia. apply Z.divide_1_l.
+  intros Hw Hx. unfold in_aval, leaf_aval. destruct (w <? 1); cbn; repeat split; try lia; try exact I; apply Z.divide_1_l.
 Qed.
 Lemma leaf_unknown_size_sound_lem k x : in_aval (leaf_aval k None) x.
 Proof. unfold in_aval; cbn. repeat split; auto. apply Z.divide_1_l. Qed.
@@ -103,14 +103,32 @@ Proof.
   exists t. auto.
 Qed.
 
-(* ---- findings reproduced inside the model ---- *)
-
-(* F18: the pass's own self-consistency assertion fires on a zero-width integer leaf. *)
-Lemma assert_never_fires_refuted_lem :
-  exists G e, (exists k w, forall i, G i = leaf_aval k (Some w)) /\ analyze G e = None.
+(* Leaves as the front end produces them never trip the pass's own consistency assertion: a field of
+   a possible width (>= 1) has lo < hi, and a field of an impossible width gets the unbounded range
+   (fix 90ef553; before it, a zero-width leaf gave [0,0] with modulus 1 and the assertion fired —
+   finding F18). *)
+Lemma leaf_consistent_lem k w : aval_consistent (leaf_aval k w) = true.
 Proof.
-  exists (fun _ => leaf_aval KUInt (Some 0)), (EVar 0). split; [exists KUInt, 0; reflexivity|].
-  vm_compute. reflexivity.
+  destruct w as [w|]; [|reflexivity]. unfold leaf_aval.
+  destruct (w <? 1) eqn:E; [reflexivity|].
+  assert (Hw : 1 <= w) by lia.
+  assert (P : 0 < 2 ^ (w - 1)) by (apply Z.pow_pos_nonneg; lia).
+  assert (Q : 2 ^ w = 2 * 2 ^ (w - 1)).
+  { replace w with (1 + (w - 1)) at 1 by lia. rewrite Z.pow_add_r by lia. reflexivity. }
+  destruct k; unfold aval_consistent; cbn [md lo hi mv ext_eqb].
+  - rewrite !Z.mod_1_r. lia.
+  - rewrite !Z.mod_1_r. lia.
+  - rewrite !Z.mod_1_r.
+    assert (R : 0 < 10 ^ (w / 4)) by (apply Z.pow_pos_nonneg; [lia|apply Z.div_pos; lia]).
+    assert (S : 0 < 2 ^ (w mod 4)) by (apply Z.pow_pos_nonneg; [lia|apply Z.mod_pos_bound; lia]).
+    assert (T : 2 <= 10 ^ (w / 4) * 2 ^ (w mod 4)).
+    { destruct (Z_lt_ge_dec w 4) as [L|L].
+      - rewrite Z.div_small by lia. rewrite Z.mod_small by lia.
+        change (10 ^ 0) with 1. rewrite Z.mul_1_l.
+        assert (2 ^ 1 <= 2 ^ w) by (apply Z.pow_le_mono_r; lia). change (2 ^ 1) with 2 in *. lia.
+      - assert (1 <= w / 4) by (apply Z.div_le_lower_bound; lia).
+        assert (10 ^ 1 <= 10 ^ (w / 4)) by (apply Z.pow_le_mono_r; lia). change (10 ^ 1) with 10 in *. nia. }
+    lia.
 Qed.
 
 (* Non-vacuity: a concrete expression over concrete leaves is analysed, passes the gate, evaluates. *)
